@@ -92,9 +92,9 @@ func init() {
 	register(rulePanicParse, ruleParseResult)
 	addProp(&PropSpec{
 		ID:          "C04",
-		Rules:       []string{"R-PANIC-PARSE", "R-PARSE-RESULT", "R-NILNODE", "R-REGEXFLAGS"},
+		Rules:       []string{"R-PANIC-PARSE", "R-PARSE-RESULT", "R-NILNODE", "R-REGEXFLAGS", "R-VALIDATE"},
 		Explanation: "Totality of Parse as a shape of the code: every construct that can raise a panic explicitly below Parse/Scan/Unmarshal* is enumerated over the call graph and must be contained by a recovering root that returns the documented error.",
-		Decided:     []string{"R-PANIC-PARSE: explicit panics, Must* calls and comma-less type assertions below the parse roots are contained by a deferred recover in parser.Parse that reports ErrParse", "R-PARSE-RESULT: (tree, nil) or (nil, sentinel-wrapped error) at every level; MustParse panics exactly on the error branch", "R-NILNODE: no action publishes a nil node without recording an error", "R-REGEXFLAGS: every like_regex accepted at parse time compiles at execution time (flag translation for all 32 flag sets; same pattern and flags validated, stored, compiled)"},
+		Decided:     []string{"R-PANIC-PARSE: explicit panics, Must* calls and comma-less type assertions below the parse roots are contained by a deferred recover in parser.Parse that reports ErrParse", "R-PARSE-RESULT: (tree, nil) or (nil, sentinel-wrapped error) at every level; MustParse panics exactly on the error branch", "R-NILNODE: no action publishes a nil node without recording an error", "R-REGEXFLAGS: every like_regex accepted at parse time compiles at execution time (flag translation for all 32 flag sets; same pattern and flags validated, stored, compiled; the validator accepts only after regexp/syntax.Parse succeeded)", "R-VALIDATE: `@` outside a filter and `last` outside a subscript are rejected, and accepted inside: decision table of the placement validator over node kind × depth × in-subscript, for every recursive call on every path"},
 		NotDecided:  []string{"termination of the lexer loops", "the goyacc runtime (trusted)", "size limits of regexp compilation"},
 		Assumptions: []string{"values of the ast enum types are declared constants only"},
 	})
